@@ -3,12 +3,6 @@
 // it survives the constructions the relation ordering uses (key projection, lexicographic pair, None-first option,
 // lexicographic sequence). Everything here is proved.
 // ---------------------------------------------------------------------------------------------
-pub open spec fn ole<T>(c: spec_fn(T, T) -> core::cmp::Ordering, a: T, b: T) -> bool { c(a, b) != core::cmp::Ordering::Greater }
-/// a total preorder given as a three-way comparison: swapping the arguments flips the answer, and <= is transitive
-pub open spec fn total_preorder<T>(c: spec_fn(T, T) -> core::cmp::Ordering) -> bool {
-    &&& forall|a: T, b: T| #[trigger] c(b, a) == ord_flip(c(a, b))
-    &&& forall|a: T, b: T, d: T| #[trigger] ole(c, a, b) && #[trigger] ole(c, b, d) ==> ole(c, a, d)
-}
 /// consequences used below: Equal is a congruence and strictness is kept
 pub proof fn lemma_preorder_strict<T>(c: spec_fn(T, T) -> core::cmp::Ordering, a: T, b: T, d: T)
     requires total_preorder(c), ole(c, a, b), ole(c, b, d)
